@@ -15,6 +15,11 @@ def check_noforce(ctx, rng):
         link = rng.choice(LINKS)
         # the workspace was usually checked out with the configured link type, sometimes with another one
         existing = link if rng.random() < 0.6 else rng.choice(LINKS)
+        # a directed mix that random choice rarely reaches: plain copies in the workspace, hard links configured, a relinking
+        # checkout, and the objects of the unchanged files gone from the cache
+        directed = rng.random() < 0.15
+        if directed:
+            existing, link = "copy", "hardlink"
         sc.checkout(t1, [existing], force=True)
         target = dict(prior)
         for k in list(prior):
@@ -39,16 +44,16 @@ def check_noforce(ctx, rng):
                     os.chmod(p, 0o644)
                     os.remove(p)
         gc_unchanged = []
-        if rng.random() < 0.3 and link != "symlink" and existing != "symlink":
+        if (directed or rng.random() < 0.3) and link != "symlink" and existing != "symlink":
             # objects of files that do not change between the two versions leave the cache too (never fetched / collected)
             for k, c in prior.items():
-                if target.get(k) == c and rng.random() < 0.5:
+                if target.get(k) == c and (directed or rng.random() < 0.5):
                     p = sc.cache_path(md5hex(c))
                     if os.path.exists(p):
                         os.chmod(p, 0o644)
                         os.remove(p)
                         gc_unchanged.append("/".join(k))
-        relink = rng.random() < (0.7 if existing != link else 0.4)
+        relink = directed or rng.random() < (0.7 if existing != link else 0.4)
         prompt = rng.choice([None, "decline"])
         before_bytes = sc.bytes_snapshot()
         before = sc.walk()
